@@ -18,6 +18,7 @@ EXCS = ['ValueError', 'AssertionError', 'Exception', 'OverflowError', 'TypeError
 
 
 class GenEncoder:
+    ALWAYS_TRUE = True        # a Python object of this kind is truthy (no __bool__ / __len__)
     def __init__(self, which, st):
         self.which = which
         self.st = st
